@@ -12,7 +12,7 @@ ASSUMPTIONS = [
     "what the model cannot exhibit: socket behaviour, TLS, HTTP/2, proxies, timeouts of the libraries",
 ]
 ADAPTERS = ["reqwest", "reqwest_blocking", "curl", "ureq"]
-STATUSES = [200, 201, 302, 400, 401, 403, 404, 429, 500, 503]
+STATUSES = [200, 201, 301, 302, 303, 307, 308, 400, 401, 403, 404, 429, 500, 503]
 CTS = [None, b"application/json", b"text/plain; charset=utf-8", b"Application/JSON"]
 REPLY_BODIES = [b"", b"{\"error\":\"invalid_grant\",\"error_description\":\"d\"}", bytes(range(256)), b"\x00\xff\x00\xff", b"x" * 70000, b"{\"access_token\":\"t\",\"token_type\":\"bearer\"}",
                 # bodies that start like something a client might sniff and rewrite: byte-order marks, compression magics
@@ -105,7 +105,7 @@ def run(tier, rng, C):
         stats["evaluations"] = stats.get("evaluations", 0) + len(big)
     finally:
         C.IMPL_BIN[0] = C.HARNESS_BIN
-    stats["rule"] = ("large bodies (11 MiB / 16 MiB + 1 replies, 3 MiB request) through every adapter; 4 adapters x 10 statuses (200, 201, 302+Location, 400, 401, 403, 404, 429, 500, 503) x 4 Content-Types x 6 reply bodies (empty, JSON, all byte values, NUL/0xFF, 70 kB, token document) "
+    stats["rule"] = ("large bodies (11 MiB / 16 MiB + 1 replies, 3 MiB request) through every adapter; 4 adapters x 14 statuses (200, 201, 301/302/303/307/308 each with a Location header that must NOT be followed, 400, 401, 403, 404, 429, 500, 503) x 4 Content-Types x 6 reply bodies (empty, JSON, all byte values, NUL/0xFF, 70 kB, token document) "
                      "x 4 request bodies (small, 2 kB, 75 kB, all byte values) with framing rotating over Content-Length / chunked / close-delimited, 1 in 6 (quick) or all (thorough); "
                      "faults {refused, closed before reply, garbage status line, body truncated under Content-Length and under chunked framing} x 4 adapters; a full exchange_code per adapter for 8 replies x 3 Content-Types; "
                      "observed: bytes the server received (method, target, Accept/Content-Type/Authorization, body), the response or error the adapter returned, number of connections (redirects not followed); "
